@@ -18,6 +18,8 @@ import (
 
 	networking "istio.io/api/networking/v1alpha3"
 	"istio.io/istio/pilot/pkg/model"
+	"istio.io/istio/pilot/pkg/networking/util"
+	"istio.io/istio/pilot/pkg/xds/endpoints"
 	xdscore "istio.io/istio/pilot/pkg/networking/core"
 	v3 "istio.io/istio/pilot/pkg/xds/v3"
 	"istio.io/istio/pilot/test/xds"
@@ -60,7 +62,7 @@ type DR struct {
 	TS       int64
 }
 type World struct {
-	Mode      string // clean | k6 | pickbest | sharedvip
+	Mode      string // clean | k6 | pickbest | sharedvip | httpproxy
 	SEs       []SE
 	VSs       []VS
 	DRs       []DR
@@ -148,7 +150,8 @@ func (w World) configs() []config.Config {
 }
 
 func genWorld(r *vlib.Rand, mode string) World {
-	w := World{Mode: mode, HTTPProxy: r.Chance(60), Gateway: r.Chance(60)}
+	// the HTTP_PROXY egress listener (route "3128" built with listenerPort 0) only in mode "httpproxy"
+	w := World{Mode: mode, HTTPProxy: mode == "httpproxy", Gateway: r.Chance(60)}
 	sameTS := r.Chance(70)
 	tsOf := func() int64 {
 		if sameTS {
@@ -228,7 +231,6 @@ func genWorld(r *vlib.Rand, mode string) World {
 			w.SEs = append(w.SEs, s)
 		}
 		w.VSs = append(w.VSs, VS{Name: "vs-pb", Ns: "ns1", Host: "front.example.com", Dest: "pb.example.com", Port: 80, Prefix: "/", TS: 0})
-		w.HTTPProxy = false
 	}
 	// virtual services: up to two per host, equal ages
 	hostsUsed := map[string]bool{}
@@ -380,7 +382,7 @@ func sameStrings(a, b []string) bool {
 var orderFinding = []string{"", "C17-lds-order", "C17-rds-order", "C17-eds-order"}
 
 func genDirect(t *testing.T, c *vlib.Collector, id *int, r *vlib.Rand, n int) {
-	modes := []string{"clean", "k6", "clean", "pickbest", "sharedvip", "clean"}
+	modes := []string{"clean", "k6", "httpproxy", "pickbest", "sharedvip", "clean"}
 	for k := 0; k < n; k++ {
 		rr := r.Sub()
 		mode := modes[k%len(modes)]
@@ -421,6 +423,7 @@ func genDirect(t *testing.T, c *vlib.Collector, id *int, r *vlib.Rand, n int) {
 				if d := firstDiff(a.content, b.content); d != "" {
 					sample["difference"] = d
 					tg = append(tg, "direct-differs")
+					dumpDiff(cid, a, b)
 				}
 				tagFinding(c, cid, mode)
 				c.Add(vlib.Case{ID: cid, Tags: tg, Term: vlib.App("Direct", vlib.NI(cid), vlib.NI(0), digestsTerm(a.content), digestsTerm(b.content)), Sample: sample})
@@ -498,5 +501,76 @@ func tagFinding(c *vlib.Collector, id int, mode string) {
 		c.FindingOf[id] = findPickBest
 	case "sharedvip":
 		c.FindingOf[id] = findSharedVIP
+	case "httpproxy":
+		c.FindingOf[id] = findHTTPProxy
+	}
+}
+
+// ---------------------------------------------------------------- layer (a): locality grouping of the real EDS builder
+
+func genLocality(t *testing.T, c *vlib.Collector, id *int, r *vlib.Rand, n int) {
+	for k := 0; k < n; k++ {
+		*id++
+		rr := r.Sub()
+		if !c.Wanted(*id) {
+			continue
+		}
+		cnt := 1 + rr.Intn(9)
+		se := SE{Name: "loc", Ns: "ns1", Hosts: []string{"loc.example.com"}, Ports: []int{80}, TS: 0}
+		type e2 struct {
+			Loc string
+			ID  int
+		}
+		var eps []e2
+		for j := 0; j < cnt; j++ {
+			loc := vlib.Pick(rr, dLocs)
+			se.Eps = append(se.Eps, EP{Addr: fmt.Sprintf("10.7.0.%d", j+1), Loc: loc, Ver: "v1"})
+			eps = append(eps, e2{loc, j + 1})
+		}
+		w := World{Mode: "clean", SEs: []SE{se}}
+		var obs []string
+		var sample []any
+		pan, msg := vlib.Recover(func() {
+			s := xds.NewFakeDiscoveryServer(t, xds.FakeOptions{Configs: w.configs()})
+			p := proxies(s, w)[0]
+			b := endpoints.NewEndpointBuilder("outbound|80||loc.example.com", p, s.PushContext())
+			cla := b.BuildClusterLoadAssignment(s.Discovery.Env.EndpointIndex)
+			for _, l := range cla.GetEndpoints() {
+				var ids []int
+				for _, le := range l.GetLbEndpoints() {
+					a := le.GetEndpoint().GetAddress().GetSocketAddress().GetAddress()
+					var x int
+					fmt.Sscanf(a, "10.7.0.%d", &x)
+					ids = append(ids, x)
+				}
+				label := util.LocalityToString(l.GetLocality())
+				obs = append(obs, vlib.Pair(vlib.Str(label), nList(ids)))
+				sample = append(sample, map[string]any{"locality": label, "endpoints": ids})
+			}
+		})
+		if pan {
+			c.Violate(vlib.Violation{ID: *id, Kind: "panic", Detail: msg, Case: w})
+			continue
+		}
+		locs := map[string]bool{}
+		for _, e := range eps {
+			locs[e.Loc] = true
+		}
+		c.Add(vlib.Case{ID: *id, Tags: []string{"locality", fmt.Sprintf("locality-groups%d", len(locs))}, Trivial: len(locs) < 2,
+			Term: vlib.App("Locality", vlib.NI(*id), vlib.ListOf(eps, func(e e2) string { return vlib.Pair(vlib.Str(e.Loc), vlib.NI(e.ID)) }), vlib.List(obs)),
+			Sample: map[string]any{"kind": "Locality", "endpoints": eps, "observed": sample}})
+	}
+}
+
+func dumpDiff(cid int, a, b gen) {
+	if a.text == nil || b.text == nil {
+		return
+	}
+	for k, v := range a.text {
+		if b.text[k] != v {
+			f := fmt.Sprintf("%s/dump_%d_%s", vlib.OutDir(), cid, strings.NewReplacer("/", "_", "|", "_").Replace(k))
+			_ = os.WriteFile(f+"_first.txt", []byte(v), 0o644)
+			_ = os.WriteFile(f+"_second.txt", []byte(b.text[k]), 0o644)
+		}
 	}
 }
